@@ -107,6 +107,8 @@ mut('C19', 'string_trim_suffix_rfind', 'src/core/string.rs', "        match self
 mut('C19', 'slice_abs_min', 'src/core/iter.rs', "        } else if right < 0 && right.unsigned_abs() <= len as usize {\n            r = right.unsigned_abs() - 1;", "        } else if right < 0 && right.abs() <= len {\n            r = (right.abs() - 1).unsigned_abs();")
 mut('C19', 'slice_unguarded_left', 'src/core/iter.rs', "        if left < 0 {\n            l = (len + left) as usize;\n        }", "        if left != 0 {\n            l = (len + left) as usize;\n        }")
 
+mut('C12', 'expand_home_slice_without_prefix_check', 'src/sys/fs/path.rs', "        cnt if cnt > 1 => return Err(PathError::multiple_home_symbols(path).into()),\n", "")
+
 
 def main():
     base = subprocess.check_output(['git', '-C', REPO, 'status', '--porcelain', '--', 'src'], text=True).strip()
